@@ -1021,11 +1021,11 @@ def check_C03(ctx, unit):
                 ctx.inst("E.map-provenance", "%s::%s%s" % (POOL, name, tag), not problems, m.loc,
                          "; ".join(problems) if problems else "map(len) with len recorded in sb_reservation, result recorded in sb_base", f)
         um = [(f, n) for f in fns for n in f.events() if is_policy_call(n, pol, ("unmap",))]
-        if len(um) != 1:
+        if not um:
             ctx.inst("E.unmap-provenance", "%s::<unmap call sites>%s" % (POOL, tag), False, "",
-                     "expected exactly one Policy::unmap call site, found %d" % len(um))
-        else:
-            f, n = um[0]
+                     "expected a Policy::unmap call site, found none")
+        # one site in the release helper, or -- when the helper is split and folded into its callers -- one per caller
+        for f, n in um:
             inits = RA.local_inits(f)
             problems = []
             srcs = []
@@ -1035,8 +1035,12 @@ def check_C03(ctx, unit):
                     srcs.append(_strip_ids(canon(inits[x.d["d"]])))
                 else:
                     srcs.append(_strip_ids(canon(x)))
-            fp = f.params()[0]["n"]
-            if srcs != ["%s.sb_base" % fp, "%s.sb_reservation" % fp]:
+            in_caller = f.name in ("free", "deallocate")
+            fp = f.params()[0]["n"] if f.params() else None
+            if in_caller:
+                m_ = re.match(r"^(\w+)\.sb_base$", srcs[0]) if srcs else None
+                fp = m_.group(1) if m_ else None
+            if fp is None or srcs != ["%s.sb_base" % fp, "%s.sb_reservation" % fp]:
                 problems.append("unmap arguments come from %s" % srcs)
             pz = [x for x in f.events() if is_policy_call(x, pol, ("poison",)) and x.args and _strip_ids(canon(x.args[0])) == fp]
             for p_ in pz:
@@ -1046,24 +1050,36 @@ def check_C03(ctx, unit):
                         decl = [d for d in f.events() if d.kind == "DeclStmt" and any(dd["d"] == x.d["d"] for dd in d.get("decls", []))]
                         if not (decl and f.dominates(decl[0].id, p_.id)):
                             problems.append("%s is read after the header was poisoned" % x.n)
+                    elif f.dominates(p_.id, n.id):
+                        problems.append("%s is read after the header was poisoned" % _strip_ids(canon(x)))
             ctx.inst("E.unmap-provenance", "%s::%s: unmap%s" % (POOL, f.name, tag), not problems, n.loc,
                      "; ".join(problems) if problems else "unmap(frame.sb_base, frame.sb_reservation), both read before poisoning", f)
             # callers reach it only for large frames
+            def _large_at(cf, nid):
+                large = False
+                for cond, truth in flow.facts_at(cf, nid):
+                    cc = _strip_ids(canon(cond))
+                    if "frame_type::slab" in cc and "==" in cc and truth is False:
+                        large = True
+                    if "frame_type::large" in cc and truth is False and cc.startswith("(!"):
+                        large = True
+                return large
+            if in_caller:
+                ok = _large_at(f, n.id)
+                ctx.inst("E.unmap-provenance", "%s::%s -> unmap%s" % (POOL, f.name, tag), ok, f.loc,
+                         "large-frame release reached only when the frame is not a slab: %s" % ok, f)
+                continue
             for cname in ("free", "deallocate"):
                 for cf in bn.get(cname, []):
                     cs = [c for c in cf.events() if c.is_call() and c.callee and c.callee["did"] == f.did]
                     ok = bool(cs)
                     for c in cs:
-                        large = False
-                        for cond, truth in flow.facts_at(cf, c.id):
-                            cc = _strip_ids(canon(cond))
-                            if "frame_type::slab" in cc and "==" in cc and truth is False:
-                                large = True
-                            if "frame_type::large" in cc and truth is False and cc.startswith("(!"):
-                                large = True
-                        ok = ok and large
+                        ok = ok and _large_at(cf, c.id)
                     ctx.inst("E.unmap-provenance", "%s::%s -> %s%s" % (POOL, cname, f.name, tag), ok, cf.loc,
                              "large-frame release reached only when the frame is not a slab: %s" % ok, cf)
+        if um and not all(f.name in ("free", "deallocate") for f, _ in um) and len(um) != 1:
+            ctx.inst("E.unmap-provenance", "%s::<unmap call sites>%s" % (POOL, tag), False, "",
+                     "Policy::unmap is called from %d places of which some are not the release entry points" % len(um))
         # accounting
         exprs = {}
         for f in fns:
